@@ -179,6 +179,35 @@ func TestC09(t *testing.T) {
 			}
 		}
 	}
+	emptyPrimaryReported := false
+	// an empty (or null) primary key next to one of its aliases: the first output drops the empty
+	// primary (omitempty) and keeps the alias, which the second parse then promotes (listed finding,
+	// explicit witnesses)
+	for _, doc := range []string{
+		"steps:\n  - command: x\n    key: \"\"\n    id: foo\n",
+		"steps:\n  - command: x\n    label: ~\n    name: n\n",
+		"steps:\n  - group: g\n    key: \"\"\n    identifier: i\n    steps: [wait]\n",
+	} {
+		p, err := pipeline.Parse(strings.NewReader(doc))
+		if err != nil {
+			fail("empty primary key with alias: %v\n%s", err, doc)
+			continue
+		}
+		cases++
+		j1, _ := json.Marshal(p)
+		p2, _ := pipeline.Parse(bytes.NewReader(j1))
+		j2, _ := json.Marshal(p2)
+		if !bytes.Equal(j1, j2) {
+			if what, ok := knownOpen("C09", "empty-primary-with-alias"); ok {
+				if !emptyPrimaryReported {
+					fmt.Printf("KNOWN-FINDING: property=C09 %s\n", what)
+				}
+				emptyPrimaryReported = true
+			} else {
+				fail("empty primary key with alias: the JSON output is not a fixpoint: %s then %s", j1, j2)
+			}
+		}
+	}
 	if knownHits > 0 {
 		fmt.Printf("KNOWN-FINDING: property=C09 %s (%d generated documents skipped on the YAML leg)\n", knownWhat, knownHits)
 	}
